@@ -33,7 +33,8 @@ type crashReq struct {
 	Scenario string `json:"scenario"`
 	BaseDir  string `json:"base_dir"` // base world (HOME, remote R live there)
 	RepoPath string `json:"repo_path"`
-	K        int    `json:"k"` // 0 = never crash (log run)
+	K        int    `json:"k"`                 // 0 = never crash (log run)
+	FailAt   int    `json:"fail_at,omitempty"` // fail-stop variant: mutations >= FailAt return an error, nobody dies
 	OutDir   string `json:"out_dir"`
 	Seed     uint64 `json:"seed"`
 	Meta     Meta   `json:"meta"`
@@ -88,7 +89,7 @@ func CrashMain(args []string) {
 		os.Exit(2)
 	}
 	gitdir := filepath.Join(req.RepoPath, ".git")
-	h := &hook{k: req.K, gitdir: gitdir}
+	h := &hook{k: req.K, failAt: req.FailAt, gitdir: gitdir}
 	h.fatal = func(err error) {
 		fmt.Fprintln(os.Stderr, "c06crash: torn derivation:", err)
 		os.Exit(2)
@@ -132,13 +133,15 @@ type Case struct {
 	BaseDir  string `json:"base_dir"`
 	Meta     Meta   `json:"meta"`
 	Seed     uint64 `json:"seed"`
-	Mode     string `json:"mode"` // "log" or "crash"
+	Mode     string `json:"mode"` // "log", "crash" or "fail" (fail-stop: mutation K and all later ones return an error)
 	K        int    `json:"k"`
 }
 
 // StateResult is the oracle input for one crash state.
 type StateResult struct {
-	Torn    string `json:"torn"` // "" = died between two mutations; else class of the torn clock file
+	Torn    string `json:"torn"`           // "" = died between two mutations; else class of the torn clock file
+	Fail    bool   `json:"fail,omitempty"` // fail-stop variant: nobody died, mutation k and all later ones returned an error
+	ActErr  string `json:"act_err,omitempty"`
 	Desc    string `json:"desc,omitempty"`
 	Digest  string `json:"digest"`
 	Obs     Obs    `json:"obs"`
@@ -283,6 +286,29 @@ func handleCase(scratch string, c Case) CaseResult {
 		return out
 	}
 
+	if c.Mode == "fail" {
+		req.FailAt = c.K
+		info, code, err := runCrash(req)
+		if err != nil {
+			return fail(err)
+		}
+		if code != 0 || info.Crashed {
+			return fail(fmt.Errorf("fail-stop run ended with exit %d", code))
+		}
+		out.Info = info
+		if c.K <= len(info.Log) {
+			info.At = info.Log[c.K-1]
+			out.Info.At = info.At
+		}
+		st, err := examine(sc, run, work, c.Meta, "", "")
+		if err != nil {
+			return fail(err)
+		}
+		st.Fail, st.ActErr = true, info.ActErr
+		out.States = append(out.States, st)
+		return out
+	}
+
 	req.K = c.K
 	info, code, err := runCrash(req)
 	if err != nil {
@@ -364,7 +390,9 @@ func sameEntities(o Obs, ref Obs) bool {
 // judge applies the statement of C06 to one crash state.
 func judge(sc *Scenario, ref CaseResult, st StateResult) (fs []finding, verdict string) {
 	how := "between-mutations"
-	if st.Torn != "" {
+	if st.Fail {
+		how = "error-at-mutation"
+	} else if st.Torn != "" {
 		how = "torn-clock-file(" + st.Torn + ")"
 	}
 	add := func(oracle, sig, format string, a ...any) {
